@@ -974,6 +974,29 @@ func L2Security(thorough bool) []MethodCase {
 			}
 		}
 	}
+	// requiredness of the credential attribute itself: optional, and optional with a default
+	for _, one := range []Requirement{{{Scheme: "aks"}}, {{Scheme: "akq"}}, {{Scheme: "jwt", Scopes: []string{"s1"}}}, {{Scheme: "oa2", Scopes: []string{"s2"}}}, {{Scheme: "bsc"}}} {
+		st := &Security{Reqs: []Requirement{one}}
+		for _, cr := range []string{"optional", "default"} {
+			name := fmt.Sprintf("m%d", n)
+			n++
+			m := secMethod(name, usedSchemes(st), false)
+			m.Security = st
+			var req []string
+			for _, a := range m.Payload.Attrs {
+				if a.Sec == "" {
+					req = append(req, a.Name)
+					continue
+				}
+				if cr == "default" {
+					a.HasDefault, a.Default = true, "dflt-"+a.Name
+				}
+			}
+			m.Payload.Required = req
+			m.Feat["level"], m.Feat["reqs"], m.Feat["override"], m.Feat["mapping"], m.Feat["credential"] = "method", desc(st), "none", "explicit", cr
+			out = append(out, MethodCase{M: m, Schemes: SecSchemes()})
+		}
+	}
 	// the same secured method exposed over HTTP AND gRPC: each transport computes the credential
 	// location on its own copy of the requirement
 	for _, one := range []Requirement{{{Scheme: "jwt", Scopes: []string{"s1"}}}, {{Scheme: "oa2", Scopes: []string{"s2"}}}, {{Scheme: "bsc"}}, {{Scheme: "aks"}}, {{Scheme: "jwt", Scopes: []string{"s1"}}, {Scheme: "aks"}}} {
